@@ -188,7 +188,7 @@ impl RScn
         if let Ok(d) = std::fs::read_dir(rd.join("history")) { for e in d.filter_map(|e| e.ok())
         {
             let name = e.file_name().to_string_lossy().to_string();
-            if name.ends_with(".tmp") { continue; }
+            if !(name.len() == 43 && name.bytes().all(|c| c.is_ascii_alphanumeric())) { continue; }      /* scratch files are not histories */
             let rid = self.rids.get(&name).cloned().unwrap_or(format!("?{}", name));
             match std::fs::read(e.path()).ok().and_then(|b| decode_history(&b))
             {
